@@ -32,6 +32,7 @@ type RunResult struct {
 	Inconcl    int
 	Yields     int
 	Switches   int
+	ND         bool                  // the run passed a site that follows Go's map iteration order (see run.Runner.ND)
 	Aborted    bool                  // the run could not be judged to the end for reasons outside this property
 	Witness    map[string]core.Fault // for image-based failures: violation signature -> explicit fault reproducing the first image that shows it
 }
